@@ -11,6 +11,7 @@ import (
 	"time"
 
 	"github.com/cloudwego/eino/compose"
+	"github.com/cloudwego/eino/schema"
 
 	"verif/harness/lib"
 )
@@ -37,6 +38,7 @@ type Call struct {
 	Key        string   `json:"key,omitempty"`
 	Kind       string   `json:"kind,omitempty"`
 	NeedState  bool     `json:"ns,omitempty"`
+	HK         int      `json:"hk,omitempty"` // which state handler NeedState stands for: 0 pre, 1 post, 2 stream pre, 3 stream post
 	NodeKeyOpt bool     `json:"nko,omitempty"`
 	NodeKey    string   `json:"nk,omitempty"`
 	From       string   `json:"from,omitempty"`
@@ -267,18 +269,6 @@ func invWS(r compose.Runnable[WS, WS]) *invoker {
 	}, r}
 }
 
-// structure renders everything the compiled runnable keeps (its runner with node table, edge
-// slices incl. spare capacity, branch objects, the handler maps it shares with the builder, ...)
-// through the read-only hook compose/verif_c09.go; nil when the hook could not walk it.
-func structure(root any) []string {
-	var lines []string
-	var fail string
-	if p := lib.Recover(func() { lines, _, fail = compose.VerifC09Snapshot(root) }); p != nil || fail != "" {
-		return nil
-	}
-	return lines
-}
-
 // frontEnd applies one call; a successful Compile also yields an invoker.
 type frontEnd interface {
 	base() *feBase
@@ -288,10 +278,29 @@ type frontEnd interface {
 	pendingStatics() map[string]int // Workflow: static values not yet applied, per node (nil otherwise)
 }
 
-func nodeOpts[T any](needState bool, nodeKey string, useNodeKey bool) []compose.GraphAddNodeOpt {
+// hkOf: the state handler a call asks for (-1 = none)
+func hkOf(c *Call) int {
+	if !c.NeedState {
+		return -1
+	}
+	return c.HK & 3
+}
+
+func nodeOpts[T any](hk int, nodeKey string, useNodeKey bool) []compose.GraphAddNodeOpt {
 	var o []compose.GraphAddNodeOpt
-	if needState {
+	switch hk {
+	case 0:
 		o = append(o, mkPre[T]())
+	case 1:
+		o = append(o, compose.WithStatePostHandler(func(ctx context.Context, out T, s *st) (T, error) { return out, nil }))
+	case 2:
+		o = append(o, compose.WithStreamStatePreHandler(func(ctx context.Context, in *schema.StreamReader[T], s *st) (*schema.StreamReader[T], error) {
+			return in, nil
+		}))
+	case 3:
+		o = append(o, compose.WithStreamStatePostHandler(func(ctx context.Context, out *schema.StreamReader[T], s *st) (*schema.StreamReader[T], error) {
+			return out, nil
+		}))
 	}
 	if useNodeKey {
 		o = append(o, compose.WithNodeKey(nodeKey))
@@ -316,7 +325,7 @@ func (f *graphFE) apply(c *Call) (error, *invoker) {
 	ctx := context.Background()
 	switch c.Op {
 	case "addnode":
-		opts := pooled(&f.feBase, "opts", func() []compose.GraphAddNodeOpt { return nodeOpts[M](c.NeedState, "k", c.NodeKeyOpt) })
+		opts := pooled(&f.feBase, "opts", func() []compose.GraphAddNodeOpt { return nodeOpts[M](hkOf(c), "k", c.NodeKeyOpt) })
 		switch c.Kind {
 		case "lambda":
 			return f.g.AddLambdaNode(c.Key, pooled(&f.feBase, "lam", func() *compose.Lambda { return mkLam(c.Key, fM) }), opts...), nil
@@ -358,7 +367,7 @@ func (f *chainFE) apply(c *Call) (error, *invoker) {
 	ctx := context.Background()
 	switch c.Op {
 	case "append":
-		opts := pooled(&f.feBase, "opts", func() []compose.GraphAddNodeOpt { return nodeOpts[M](c.NeedState, c.NodeKey, c.NodeKey != "") })
+		opts := pooled(&f.feBase, "opts", func() []compose.GraphAddNodeOpt { return nodeOpts[M](hkOf(c), c.NodeKey, c.NodeKey != "") })
 		name := c.NodeKey
 		if name == "" {
 			name = "n"
@@ -394,7 +403,7 @@ func mkParallel(c *Call) *compose.Parallel {
 	{
 		p := compose.NewParallel()
 		for _, it := range c.Items {
-			opts := nodeOpts[M](false, it.NodeKey, it.NodeKey != "")
+			opts := nodeOpts[M](-1, it.NodeKey, it.NodeKey != "")
 			switch it.Kind {
 			case "lambda":
 				p.AddLambda(it.Key, mkLam(it.Key, fM), opts...)
@@ -424,7 +433,7 @@ func mkChainBranch(c *Call) *compose.ChainBranch {
 			return keys[len(in)%len(keys)], nil
 		})
 		for _, it := range c.Items {
-			opts := nodeOpts[M](false, it.NodeKey, it.NodeKey != "")
+			opts := nodeOpts[M](-1, it.NodeKey, it.NodeKey != "")
 			switch it.Kind {
 			case "lambda":
 				cb.AddLambda(it.Key, mkLam(it.Key, fM), opts...)
@@ -466,7 +475,7 @@ func (f *wfFE) apply(c *Call) (error, *invoker) {
 	ctx := context.Background()
 	switch c.Op {
 	case "addnode":
-		opts := pooled(&f.feBase, "opts", func() []compose.GraphAddNodeOpt { return nodeOpts[WS](c.NeedState, "", false) })
+		opts := pooled(&f.feBase, "opts", func() []compose.GraphAddNodeOpt { return nodeOpts[WS](hkOf(c), "", false) })
 		var h *compose.WorkflowNode
 		switch c.Kind {
 		case "lambda":
@@ -527,73 +536,167 @@ func (f *wfFE) apply(c *Call) (error, *invoker) {
 	panic("harness: bad workflow op " + c.Op)
 }
 
-// ---- nested: an outer Graph whose sub-graph nodes are Graph values the case goes on calling
-type nestedFE struct {
-	feBase
-	g      *compose.Graph[M, M]
-	inners map[string]*compose.Graph[M, M]
-	ids    []string
+// ---- nested: an outer Graph whose sub-graph nodes are builder values the case goes on calling: Graphs (kinds
+// subok / subbad), Chains (subchain / subchainbad) or Workflows (subwf / subwfbad; then the outer graph and every
+// child work on WS, the Workflow universe of this harness, otherwise on M)
+
+// graphOps: what the graph-level calls need to know about the value universe
+type graphOps[T any] struct {
+	f    func(string, T) T
+	size func(T) int
+	inv  func(compose.Runnable[T, T]) *invoker
 }
 
-func newNestedFE(state bool) *nestedFE {
-	f := &nestedFE{inners: map[string]*compose.Graph[M, M]{}}
-	if state {
-		f.g = compose.NewGraph[M, M](newStateOpt())
-	} else {
-		f.g = compose.NewGraph[M, M]()
-	}
-	return f
-}
+var opsM = graphOps[M]{fM, sizeM, invM}
+var opsWS = graphOps[WS]{fWS, sizeWS, invWS}
 
 // graphCall: one graph-level call on a Graph value (the outer one or an inner one)
-func graphCall(b *feBase, what string, g *compose.Graph[M, M], c *Call) (error, *invoker) {
+func graphCall[T any](b *feBase, what string, g *compose.Graph[T, T], c *Call, o graphOps[T]) (error, *invoker) {
 	switch c.Op {
 	case "addnode":
-		opts := pooled(b, what+"opts", func() []compose.GraphAddNodeOpt { return nodeOpts[M](c.NeedState, "k", c.NodeKeyOpt) })
+		opts := pooled(b, what+"opts", func() []compose.GraphAddNodeOpt { return nodeOpts[T](hkOf(c), "k", c.NodeKeyOpt) })
 		if c.Kind == "pass" {
 			return g.AddPassthroughNode(c.Key, opts...), nil
 		}
-		return g.AddLambdaNode(c.Key, pooled(b, what+"lam", func() *compose.Lambda { return mkLam(c.Key, fM) }), opts...), nil
+		return g.AddLambdaNode(c.Key, pooled(b, what+"lam", func() *compose.Lambda { return mkLam(c.Key, o.f) }), opts...), nil
 	case "addedge":
 		return g.AddEdge(c.From, c.To), nil
 	case "addbranch":
-		return g.AddBranch(c.From, pooled(b, what+"branch", func() *compose.GraphBranch { return mkBranch(c.Ends, sizeM) })), nil
+		return g.AddBranch(c.From, pooled(b, what+"branch", func() *compose.GraphBranch { return mkBranch(c.Ends, o.size) })), nil
 	case "compile":
 		r, err := g.Compile(context.Background(), pooled(b, what+"copts", func() []compose.GraphCompileOption { return compileOpts(c) })...)
 		if err != nil {
 			return err, nil
 		}
-		return nil, invM(r)
+		return nil, o.inv(r)
 	}
 	panic("harness: bad graph op " + c.Op)
+}
+
+// child: an inner builder of a nested case
+type child struct {
+	g     compose.AnyGraph
+	apply func(b *feBase, c *Call) (error, *invoker)
+	snap  func() []string
+}
+
+func graphChild[T any](ok bool, o graphOps[T]) *child {
+	g := mkSub(ok, o.f).(*compose.Graph[T, T])
+	return &child{g: g,
+		apply: func(b *feBase, c *Call) (error, *invoker) { return graphCall(b, "i/", g, c, o) },
+		snap:  func() []string { return snapOfGraph(g) }}
+}
+
+// feChild: a Chain or a Workflow, driven through the front-end of its own kind
+func feChild(fe frontEnd, g compose.AnyGraph, init []Call) *child {
+	for i := range init {
+		fe.apply(&init[i])
+	}
+	return &child{g: g,
+		apply: func(b *feBase, c *Call) (error, *invoker) {
+			fe.base().pool, fe.base().at = nil, b.at // the values an inner builder is handed are never shared between attempts
+			return fe.apply(c)
+		},
+		snap: fe.snapshot}
+}
+
+// the initial construction of an inner builder (the Go-side oracle replays it: nested.go)
+func childInit(kind string) []Call {
+	switch kind {
+	case "subchain":
+		return []Call{{Op: "append", Kind: "lambda"}}
+	case "subwf":
+		return []Call{{Op: "addnode", Key: "s", Kind: "lambda"}, {Op: "addinput", To: "s", From: "start", In: "normal"}, {Op: "addinput", To: "end", From: "s", In: "normal"}}
+	case "subwfbad":
+		return []Call{{Op: "addnode", Key: "s", Kind: "lambda"}, {Op: "addinput", To: "s", From: "start", In: "normal"}}
+	}
+	return nil // subchainbad: an empty chain; the Graph kinds are built by mkSub
+}
+
+type nestedFE struct {
+	feBase
+	ws       bool // the Workflow universe
+	gM       *compose.Graph[M, M]
+	gWS      *compose.Graph[WS, WS]
+	children map[string]*child
+	ids      []string
+}
+
+func usesWS(c *Case) bool {
+	for _, k := range c.Calls {
+		if k.Op == "sub" && (k.Kind == "subwf" || k.Kind == "subwfbad") {
+			return true
+		}
+	}
+	return false
+}
+
+func newNestedFE(c *Case) *nestedFE {
+	f := &nestedFE{children: map[string]*child{}, ws: usesWS(c)}
+	var opts []compose.NewGraphOption
+	if c.State {
+		opts = append(opts, newStateOpt())
+	}
+	if f.ws {
+		f.gWS = compose.NewGraph[WS, WS](opts...)
+	} else {
+		f.gM = compose.NewGraph[M, M](opts...)
+	}
+	return f
+}
+
+func (f *nestedFE) newChild(kind string) *child {
+	switch kind {
+	case "subchain", "subchainbad":
+		fe := newChainFE(false)
+		return feChild(fe, fe.c, childInit(kind))
+	case "subwf", "subwfbad":
+		fe := newWfFE(false)
+		return feChild(fe, fe.w, childInit(kind))
+	}
+	if f.ws {
+		return graphChild(kind != "subbad", opsWS)
+	}
+	return graphChild(kind != "subbad", opsM)
 }
 
 func (f *nestedFE) apply(c *Call) (error, *invoker) {
 	switch c.Op {
 	case "sub":
-		in, ok := f.inners[c.ID]
+		in, ok := f.children[c.ID]
 		if !ok {
-			// an inner graph is a builder the case goes on calling: every execution gets its own (never from the pool)
-			in = mkSub(c.Kind != "subbad", fM).(*compose.Graph[M, M])
-			f.inners[c.ID] = in
+			// an inner builder is a value the case goes on calling: every execution gets its own (never from the pool)
+			in = f.newChild(c.Kind)
+			f.children[c.ID] = in
 			f.ids = append(f.ids, c.ID)
 			sort.Strings(f.ids)
 		}
-		return f.g.AddGraphNode(c.Key, in), nil
+		if f.ws {
+			return f.gWS.AddGraphNode(c.Key, in.g), nil
+		}
+		return f.gM.AddGraphNode(c.Key, in.g), nil
 	case "inner":
-		in, ok := f.inners[c.ID]
+		in, ok := f.children[c.ID]
 		if !ok || c.Sub == nil {
 			return nil, nil // no such value: the call cannot be written in Go (model: no-op)
 		}
-		return graphCall(&f.feBase, "i/", in, c.Sub)
+		return in.apply(&f.feBase, c.Sub)
 	}
-	return graphCall(&f.feBase, "", f.g, c)
+	if f.ws {
+		return graphCall(&f.feBase, "", f.gWS, c, opsWS)
+	}
+	return graphCall(&f.feBase, "", f.gM, c, opsM)
 }
 
 func (f *nestedFE) snapshot() []string {
-	out := snapGraph(f.g.VerifC20Snapshot())
+	var out []string
+	if f.ws {
+		out = snapOfGraph(f.gWS)
+	} else {
+		out = snapOfGraph(f.gM)
+	}
 	for _, id := range f.ids {
-		for _, l := range snapGraph(f.inners[id].VerifC20Snapshot()) {
+		for _, l := range f.children[id].snap() {
 			out = append(out, "I"+id+"/"+l)
 		}
 	}
@@ -606,7 +709,7 @@ func (f *nestedFE) pendingStatics() map[string]int { return nil }
 func newFE(c *Case) frontEnd {
 	switch c.FE {
 	case "nested":
-		return newNestedFE(c.State)
+		return newNestedFE(c)
 	case "graph":
 		return newGraphFE(c.State)
 	case "chain":
@@ -821,30 +924,6 @@ func recheck(runs []*compiled, after string) (intact bool, affected string, nStr
 		}
 	}
 	return res.intact, res.affected, res.nStruct
-}
-
-// runnerLines renders the runner behind a runnable (compose.VerifC09Project): node keys, control and
-// data edges, branches, trigger mode, eager flag, step limit.
-func runnerLines(root any) []string {
-	var g *compose.VerifC09Graph
-	if p := lib.Recover(func() { g = compose.VerifC09Project(root) }); p != nil || g == nil {
-		return []string{"runner-not-readable"}
-	}
-	var out []string
-	for _, n := range g.Nodes {
-		out = append(out, "rn:"+n.Key)
-	}
-	for _, p := range g.Ctrl {
-		out = append(out, "rc:"+p[0]+">"+p[1])
-	}
-	for _, p := range g.Data {
-		out = append(out, "rd:"+p[0]+">"+p[1])
-	}
-	for _, b := range g.Branches {
-		out = append(out, "rb:"+b.From+">"+strings.Join(b.Ends, ","))
-	}
-	out = append(out, "rg:"+flag(g.Dag, "dag", "pregel"), "re:"+flag(g.Eager, "eager", "batch"), fmt.Sprintf("rm:%d", g.MaxSteps))
-	return out
 }
 
 func firstDiff(a, b []string) string {
